@@ -702,12 +702,59 @@ def rule_rangeend(ctx, rep, rid="R-C05-rangeend"):
     b = inlined(ctx.prog, bs[0])
     ranges = [c for c in b.calls() if (c.callee or "") == "lsp_types::Range::new"]
     n = 0
+    def folder_bodies(fc):
+        """the bodies of the function a fold call applies to each item: a closure, a closure bound to a variable, or a function item"""
+        cp = op_place(fc.args[2])
+        cd = b.single_def(cp[0]) if cp is not None and not cp[1] else None
+        if cd and cd[0] == "stmt" and cd[3][0] == "agg" and isinstance(cd[3][1], dict) and cd[3][1].get("k") == "closure":
+            return ctx.prog.get(norm(cd[3][1]["def"]))
+        if cd and cd[0] == "stmt" and cd[3][0] in ("use", "ref"):
+            # a closure bound to a variable and used for both folds
+            q = op_place(cd[3][1]) if cd[3][0] == "use" else cd[3][2]
+            qd = b.single_def(b.root(q)[0]) if q is not None else None
+            if qd and qd[0] == "stmt" and qd[3][0] == "agg" and isinstance(qd[3][1], dict) and qd[3][1].get("k") == "closure":
+                return ctx.prog.get(norm(qd[3][1]["def"]))
+        c0 = b.const_of(fc.args[2])
+        if c0 is not None and len(c0) > 3 and isinstance(c0[3], dict) and "rfn" in c0[3]:
+            return ctx.prog.get(norm(c0[3]["rfn"]))
+        return []
+
+    def folder_advances(fc):
+        """the folder adds one (to the line) where the character is known to be a line feed"""
+        for cb in folder_bodies(fc):
+            cdom = cb.dominators()
+            for i, j, st in cb.all_stmts():
+                if st[0] == "=" and st[2][0] == "bin" and st[2][1].startswith("Add") and 1 in (panics_int(cb, st[2][2]), panics_int(cb, st[2][3])):
+                    for d_ in cdom.get(i, set()):
+                        si = switch_info(cb, d_)
+                        if si and si["kind"] == "int" and any("10" in [str(x) for x in labs] for labs in si["edges"].values()):
+                            return True
+                        if si and si["kind"] == "bool" and si["subject"][0] == "bin" and si["subject"][1] == "Eq" and 10 in (panics_int(cb, si["subject"][2]), panics_int(cb, si["subject"][3])):
+                            return True
+        return False
+
+    def is_fold(d):
+        return bool(d and d[0] == "call" and (d[2].u or d[2].callee or "").split("::")[-1] in ("fold", "try_fold") and len(d[2].args) > 2)
     for rc in sorted(ranges, key=lambda c: (c.loc[0], c.loc[1])):
         pos = []
+        defs_ = []
         for a in rc.args[:2]:
             p = op_place(a)
-            d = b.single_def(p[0]) if p is not None and not p[1] else None
+            d = b.single_def(b.root(p)[0]) if p is not None and not b.root(p)[1] else None
+            defs_.append((b.root(p)[0] if p is not None else None, d))
             pos.append(d[2] if d and d[0] == "call" and (d[2].callee or "") == "lsp_types::Position::new" else None)
+        if is_fold(defs_[1][1]) and "Position" in b.local_ty(defs_[1][0]):
+            # the positions themselves are the accumulators: `start = text[..s].chars().fold(Position(0,0), f)`, `end = text[s..e].chars().fold(start, f)`
+            n += 1
+            inst = "map_label|range#%d" % n
+            if defs_[0][0] == defs_[1][0]:
+                r.finding(inst + "|end-on-start-line", loc_str(b.f, rc.loc), "the end position is the start position: a label that contains a line break (a call written over two lines, an "
+                          "unterminated comment) gets an end that is not where the label ends")
+            elif not folder_advances(defs_[1][1][2]):
+                r.finding(inst + "|end-line-not-advanced", loc_str(b.f, rc.loc), "the line of the end position is never advanced on a line break inside the label")
+            else:
+                r.ok(inst, loc_str(b.f, rc.loc), "the end is folded over the label's characters by a function that advances the line on '\\n'")
+            continue
         if None in pos or any(a[0] == "c" for a in pos[0].args + pos[1].args):
             continue        # the fallback range 0:0-0:0
         n += 1
@@ -742,32 +789,8 @@ def rule_rangeend(ctx, rep, rid="R-C05-rangeend"):
         if not adv and le is not None:
             # the same scan written as `chars().fold((line, col), |(line, col), ch| if ch == '\n' { (line + 1, 0) } else { .. })`
             d = b.single_def(le)
-            if d and d[0] == "call" and (d[2].u or d[2].callee or "").split("::")[-1] in ("fold", "try_fold") and len(d[2].args) > 2:
-                cp = op_place(d[2].args[2])
-                cd = b.single_def(cp[0]) if cp is not None and not cp[1] else None
-                cbs = []
-                if cd and cd[0] == "stmt" and cd[3][0] == "agg" and isinstance(cd[3][1], dict) and cd[3][1].get("k") == "closure":
-                    cbs = ctx.prog.get(norm(cd[3][1]["def"]))
-                elif cd and cd[0] == "stmt" and cd[3][0] in ("use", "ref"):
-                    # a closure bound to a variable and used for both folds
-                    q = op_place(cd[3][1]) if cd[3][0] == "use" else cd[3][2]
-                    qd = b.single_def(b.root(q)[0]) if q is not None else None
-                    if qd and qd[0] == "stmt" and qd[3][0] == "agg" and isinstance(qd[3][1], dict) and qd[3][1].get("k") == "closure":
-                        cbs = ctx.prog.get(norm(qd[3][1]["def"]))
-                else:
-                    c0 = b.const_of(d[2].args[2])
-                    if c0 is not None and len(c0) > 3 and isinstance(c0[3], dict) and "rfn" in c0[3]:
-                        cbs = ctx.prog.get(norm(c0[3]["rfn"]))
-                for cb in cbs:
-                    cdom = cb.dominators()
-                    for i, j, st in cb.all_stmts():
-                        if st[0] == "=" and st[2][0] == "bin" and st[2][1].startswith("Add") and 1 in (panics_int(cb, st[2][2]), panics_int(cb, st[2][3])):
-                            for d_ in cdom.get(i, set()):
-                                si = switch_info(cb, d_)
-                                if si and si["kind"] == "int" and any("10" in [str(x) for x in labs] for labs in si["edges"].values()):
-                                    adv = True
-                                if si and si["kind"] == "bool" and si["subject"][0] == "bin" and si["subject"][1] == "Eq" and 10 in (panics_int(cb, si["subject"][2]), panics_int(cb, si["subject"][3])):
-                                    adv = True
+            if is_fold(d):
+                adv = folder_advances(d[2])
         if ls is not None and ls == le:
             r.finding(inst + "|end-on-start-line", loc_str(b.f, rc.loc), "the end position uses the start's line: a label that contains a line break (a call written over two lines, an "
                       "unterminated comment) gets an end past the end of its first line - a position that does not exist in the document")
@@ -1278,7 +1301,7 @@ def rule_units(ctx, rep, rid="R-C05-units"):
     the numeric slice does not pass through text."""
     from vlib.numflow import sources_of
     r = rep.rule(rid, "the `character` of every lsp_types::Position built in lsp_project is not computed from byte quantities: its numeric "
-                      "backward slice (through closures/helpers) reaches no label/span byte offset and no byte-length/byte-index call", floor=2,
+                      "backward slice (through closures/helpers) reaches no label/span byte offset and no byte-length/byte-index call", floor=1,
                  floor_what="Position::new calls fed by non-constant values")
     n = 0
     for b in sorted(ctx.prog.bodies.values(), key=lambda x: x.id):
